@@ -146,7 +146,7 @@ def eval_cover(ctx):
                     memo[suffix] = "not analysable: %s" % ex
         whats = inlined_into(full)
         for suffix, (kinds, fn) in table.items():
-            if (kind in kinds or "%s:%s" % (kind, detail) in kinds) and memo[suffix] is None and any(suffix.split("::")[-1] in w and suffix.split("::")[0].split("::")[-1] in w for w in whats):
+            if (kind in kinds or "%s:%s" % (kind, detail) in kinds) and memo[suffix] is None and any(w.split("::")[-1] == suffix.split("::")[-1] for w in whats):
                 return True
         for suffix, (kinds, fn) in table.items():
             if (kind in kinds or "%s:%s" % (kind, detail) in kinds) and (suffix in full or suffix in mir_name(full)) and "{closure" not in full.split(suffix)[-1][:0]:
@@ -388,13 +388,25 @@ def discharge(ctx, chk, g, with_main=False):
     chk.check(R3, panicking <= inter and panicking <= excluded and len(calls) == 1, "special_kinds",
               "parse_operand panics for %s; parse_operands intercepts %s; parse_spec_constant_op excludes %s before the generic parser" % (
                   sorted(panicking), sorted(inter), sorted(excluded)), raw.where("parse_spec_constant_op", "Parser"), key="C04:special-kinds")
-    callers = set()
+    # parse_operand (whose arms for the five special kinds panic) is reached only through the two evaluated entry points
+    callers_of = {}
     for p, fn in mir.fns.items():
         for b_ in fn["blocks"]:
-            if b_["t"]["t"] == "call" and b_["t"].get("rn") == "parse_operand":
-                callers.add(mir_name(p).split("::")[-1])
-    chk.check(R3, callers == {"parse_operands", "parse_spec_constant_op"}, "parse_operand-callers", "parse_operand is called from %s" % sorted(callers),
-              raw.where("parse_operand", "Parser"))
+            if b_["t"]["t"] == "call" and b_["t"].get("rn"):
+                callers_of.setdefault(b_["t"]["rn"], set()).add(mir_name(p).split("::")[-1])
+    roots = {"parse_operands", "parse_spec_constant_op"}
+    frontier, seen_, stray = ["parse_operand"], set(), set()
+    while frontier:
+        x_ = frontier.pop()
+        for c_ in callers_of.get(x_, ()):
+            if c_ in roots or c_ in seen_:
+                continue
+            seen_.add(c_)
+            if not callers_of.get(c_):
+                stray.add(c_)
+            frontier.append(c_)
+    chk.check(R3, bool(callers_of.get("parse_operand")) and not stray, "parse_operand-callers",
+              "parse_operand is reachable from %s without passing parse_operands / parse_spec_constant_op" % sorted(stray), raw.where("parse_operand", "Parser"))
 
     # ExtInstSetTracker::track: no abstract case panics (operands empty / result id absent / wrong operand kind)
     from . import extx
